@@ -793,6 +793,13 @@ impl<T: Float> Unpaired<T> {
         let stats_a = self.stats_a;
         let stats_b = self.stats_b;
 
+        if stats_a.sample_count() < 2 {
+            return Err(CIError::TooFewSamples(stats_a.sample_count()));
+        }
+        if stats_b.sample_count() < 2 {
+            return Err(CIError::TooFewSamples(stats_b.sample_count()));
+        }
+
         let n_a = T::from(stats_a.sample_count()).convert("stats_a.sample_count")?;
         let n_b = T::from(stats_b.sample_count()).convert("stats_b.sample_count")?;
         let mean_a = stats_a.sample_mean();
